@@ -248,9 +248,7 @@ func (fr *frame) get(key ssa.Value) value {
 		return &cell
 	}
 	if k, ok := fr.fi.reg[key]; ok {
-		if r := fr.regs[k]; r != nil {
-			return r
-		}
+		return fr.regs[k]
 	}
 	panic(fmt.Sprintf("get: no value for %T: %v", key, key.Name()))
 }
